@@ -165,6 +165,23 @@ impl Printer {
                 prev_tight_after = false;
                 continue;
             }
+            // `__vx_iter!(name, EXPR)` => `name: EXPR` (Verus ghost iterator name of a for loop)
+            if let (Some(TokenTree::Ident(id)), Some(TokenTree::Punct(p)), Some(TokenTree::Group(g))) =
+                (trees.get(i), trees.get(i + 1), trees.get(i + 2))
+            {
+                if id == "__vx_iter" && p.as_char() == '!' && g.delimiter() == Delimiter::Parenthesis {
+                    let inner: Vec<TokenTree> = g.stream().into_iter().collect();
+                    if let Some(TokenTree::Ident(name)) = inner.get(0) {
+                        self.word(&format!("{}:", name), false);
+                        let rest: TokenStream = inner.into_iter().skip(2).collect();
+                        self.stream(rest, m, false);
+                        i += 3;
+                        prev_joint = false;
+                        prev_tight_after = false;
+                        continue;
+                    }
+                }
+            }
             let t = &trees[i];
             match t {
                 TokenTree::Group(g) => {
